@@ -793,7 +793,7 @@ func main() {
 	r.Extra["oracle_workers"] = workers
 	r.Extra["model_tie_share"] = shareReport()
 	r.Finish(
-		"corpus (defect witnesses, boundary scalars, BIP340 CSV rows, RFC6979/HMAC and signature vectors from the repo's tests) then a structured generator: valid triples from random keys in all key formats, then one mutation per case (bit flips, r/s in {0,n,n+k,p,2^256-1,s+n,n-s}, 33-byte and padded integers, DER container damage, x>=p, y>=p, non-residue x, off-curve, hybrid parity, wrong lengths, infinity results, own-arithmetic forgeries, algebraic triples with small s offered as s+n < 2^256, triples solved for a chosen nonce point with n <= x(R) < p (r = x-n) and their unreduced / negated-key / high-S / bit-flipped siblings, twin nonce points x and x+n sharing one r, public-key recovery on arbitrary (r, s, hash, recid) with the recovered triple offered back to the verifier, signing inputs solved for short R / short S with the top bit set, RFC6979 nonces for message hashes 0 / n+k / ff..ff, the repository's RFC6979 vectors with their expected outputs (noncevec), SchnorrVerify's steps with an injected challenge e >= n on valid / shifted-by-n / odd-R / bit-flipped signatures (schnorre) and XYZ.ECmult with negative scalars (ecmneg)); then incremental sweeps (sweep.go: valid tweak / ECDSA / BIP340 inputs advanced by one point addition per case, each with its minimal invalid sibling; counted as evaluations with an empty distinct key); distinct = distinct (op, arguments)",
+		"corpus (defect witnesses, boundary scalars, BIP340 CSV rows, RFC6979/HMAC and signature vectors from the repo's tests) then a structured generator: valid triples from random keys in all key formats, then one mutation per case (bit flips, r/s in {0,n,n+k,p,2^256-1,s+n,n-s}, 33-byte and padded integers, DER container damage, x>=p, y>=p, non-residue x, off-curve, hybrid parity, wrong lengths, infinity results, own-arithmetic forgeries, algebraic triples with small s offered as s+n < 2^256, triples solved for a chosen nonce point with n <= x(R) < p (r = x-n) and their unreduced / negated-key / high-S / bit-flipped siblings, twin nonce points x and x+n sharing one r, public-key recovery on arbitrary (r, s, hash, recid) with the recovered triple offered back to the verifier, signing inputs solved for short R / short S with the top bit set, RFC6979 nonces for message hashes 0 / n+k / ff..ff, the repository's RFC6979 vectors with their expected outputs (noncevec), SchnorrVerify's steps with an injected challenge e >= n on valid / shifted-by-n / odd-R / bit-flipped signatures (schnorre) and XYZ.ECmult with negative scalars (ecmneg), results at infinity for all three verifiers with the claim ranging over every coordinate an implementation could have left behind (inf.go: operand x, x(G), the double, gocoin's own ECPublicTweakAdd residue, both parities, the finite neighbour) and XY.ECPublicTweakAdd itself against A + t*G incl. sums at infinity (tweakadd)); then incremental sweeps (sweep.go: valid tweak / ECDSA / BIP340 inputs advanced by one point addition per case, each with its minimal invalid sibling; counted as evaluations with an empty distinct key); distinct = distinct (op, arguments)",
 		"real gocoin functions vs an independent math/big reference (property predicate) on every case; a subset also through the Lean model and Lean spec (oracle_c03): real=model is the tie, model=spec is what the iff-theorems state")
 }
 
